@@ -8,7 +8,7 @@ B64 = "ABCDEFGHIJKLMNOPQRSTUVWXYZabcdefghijklmnopqrstuvwxyz0123456789-_"
 def _res(fn, *a):
     try:
         r = fn(*a)
-    except (ValueError, KeyError, OverflowError, UnicodeDecodeError, TypeError) as ex:
+    except Exception as ex:     # every exception class becomes an observation (never a harness crash)
         return ("raise", type(ex).__name__)
     if isinstance(r, str):
         return ("ok",) + tuple(ord(c) for c in r)
@@ -25,7 +25,10 @@ def _both(fn, s):
     except UnicodeEncodeError:   # lone surrogates: only the str form exists
         return (r,)
     rb = _res(fn, b)
-    return (r,) if rb == r else (r, ("bytes-variant-differs",) + rb)
+    if rb != r:
+        return (r, ("bytes-variant-differs",) + rb)
+    ra = _res(fn, bytearray(b))
+    return (r,) if ra == r else (r, ("bytearray-variant-differs",) + ra)
 
 
 class C26(core.Check):
@@ -43,7 +46,7 @@ class C26(core.Check):
     quick_n = 3000
     thorough_n = 200000
     rule = ("cases: (int n l) intToB64 then b64ToInt; (code s) codeB64ToB2 then codeB2ToB64; (nab b l) nabSextets; "
-            "(dec s) b64ToInt on arbitrary code points.  n mixes 0, 64^k±1 and uniform up to 2^256; l in 0..70; "
+            "(codeseq s1 s2 ..) a history of code conversions of related strings in one process (same leading sextets, lengths 4k-1/4k, extensions by A); (dec s) b64ToInt on arbitrary code points.  n mixes 0, 64^k±1 and uniform up to 2^256; l in 0..70; "
             "strings up to 40 chars over the alphabet (dec: also foreign chars).  non-trivial = not (n<64 and l<=1) and not empty string; distinct by request line")
     trusted_base = ["translator harness/extract/b64.py (alphabet tables read from the imported module)",
                     "correspondence harness/props/C26.py: model driver vs hio.help.helping on the same calls",
@@ -56,8 +59,11 @@ class C26(core.Check):
     def corpus(self):
         return [("int", 0, 0), ("int", 5, 0), ("int", 0, 1), ("int", 63, 1), ("int", 64, 1), ("int", 4095, 5),
                 ("code", [ord('A')]), ("code", [ord(c) for c in "AAAA"]), ("code", [ord(c) for c in "_-9z"]),
-                ("code", []), ("nab", [255, 255, 255], 3), ("nab", [255], 2), ("nab", [1, 2, 3, 4, 5, 6], 7),
-                ("dec", [33]), ("dec", [0x41, 0x100]), ("dec", [])]
+                ("code", []), ("codeseq", [[ord(c) for c in "-BCA"], [ord(c) for c in "-BC"], [ord(c) for c in "-BCAA"]]),
+                ("codeseq", [[ord(c) for c in "ABCDEFG"], [ord(c) for c in "ABCDEFGA"]]), ("nab", [255, 255, 255], 3), ("nab", [255], 2), ("nab", [1, 2, 3, 4, 5, 6], 7),
+                ("dec", [33]), ("dec", [0x41, 0x100]), ("dec", []),
+                ("decb", [0x41, 0xC3, 0xA9]), ("decb", [0xFF]), ("decb", [0x42, 0x5F]),
+                ("seq", [("int", 4095, 2), ("int", 4095, 2), ("code", [ord(c) for c in "-BC"]), ("nab", [255, 16, 32], 3), ("dec", [66])])]
 
     def exhaustive(self, tier):
         if tier != "thorough":
@@ -82,6 +88,23 @@ class C26(core.Check):
                 ln = rng.choice([0, 1, 2, 3, 4, 5, 6, 7, 8, rng.randrange(0, 41)])
                 s = [ord(rng.choice(B64 if rng.random() < 0.8 else "AA_-")) for _ in range(ln)]
                 yield ("code", s)
+            elif k < 0.78:
+                # histories of related codes: same leading sextets at lengths around a multiple of 4, prefixes,
+                # extensions by 'A' (sextet 0) — equal binary for different lengths
+                base = [ord(rng.choice(B64)) for _ in range(rng.choice([2, 3, 3, 4, 6, 7, 7, 8, 11, 12]))]
+                fam = [base, base + [ord('A')], base[:-1], base + [ord('A'), ord('A')], base + [ord(rng.choice(B64))]]
+                rng.shuffle(fam)
+                yield ("codeseq", [f for f in fam[:rng.randrange(2, 6)] if f])
+            elif k < 0.82:
+                # mixed histories of any calls in one process (purity: no call depends on an earlier one)
+                sub = []
+                for c in self.generate(rng, rng.randrange(2, 5), tier):
+                    if c[0] not in ("seq",):
+                        sub.append(c)
+                yield ("seq", sub)
+            elif k < 0.85:
+                ln = rng.randrange(0, 10)
+                yield ("decb", [rng.choice([ord(rng.choice(B64)), rng.randrange(256), 0xC3, 0xA9, 0xFF]) for _ in range(ln)])
             elif k < 0.9:
                 ln = rng.randrange(0, 30)
                 b = [rng.choice([0, 255, rng.randrange(256)]) for _ in range(ln)]
@@ -93,6 +116,11 @@ class C26(core.Check):
 
     def request(self, case):
         return case
+
+    def model_applies(self, case):
+        if case[0] == "seq":
+            return all(self.model_applies(c) for c in case[1])
+        return case[0] != "decb"      # the model has no utf-8 decoder: raw-bytes input is judged by the oracle alone
 
     def run_impl(self, case):
         from hio.help import helping
@@ -115,9 +143,25 @@ class C26(core.Check):
             a = a2[0]
             if a[0] != "ok":
                 return (a,)
-            return (a, _res(helping.codeB2ToB64, bytes(a[1:]), len(s)))
+            back = _res(helping.codeB2ToB64, bytes(a[1:]), len(s))
+            if all(x < 128 for x in a[1:]):      # the binary may also be given as (ascii) str
+                back_s = _res(helping.codeB2ToB64, bytes(a[1:]).decode("ascii"), len(s))
+                if back_s != back:
+                    return (a, back, ("str-variant-differs",) + back_s)
+            return (a, back)
+        if kind == "codeseq":
+            return tuple(self.run_impl(("code", s)) for s in case[1])
         if kind == "nab":
-            return (_res(helping.nabSextets, bytes(case[1]), case[2]),)
+            r = _res(helping.nabSextets, bytes(case[1]), case[2])
+            if all(x < 128 for x in case[1]):
+                rs = _res(helping.nabSextets, bytes(case[1]).decode("ascii"), case[2])
+                if rs != r:
+                    return (r, ("str-variant-differs",) + rs)
+            return (r,)
+        if kind == "decb":      # raw bytes to b64ToInt (decoded as utf-8 by the library): oracle only
+            return (_res(helping.b64ToInt, bytes(case[1])),)
+        if kind == "seq":
+            return tuple(self.run_impl(c) for c in case[1])
         if kind == "dec":
             return _both(helping.b64ToInt, "".join(chr(c) for c in case[1]))
         raise core.Infra(f"bad case {case!r}")
@@ -143,6 +187,23 @@ class C26(core.Check):
                     bad.append("code-roundtrip")
                 elif len(obs[0]) - 1 != -(-len(s) * 3 // 4):
                     bad.append("code-b2-length")
+        elif kind == "seq":
+            for c_, o in zip(case[1], obs):
+                bad += self.oracle(c_, o)
+        elif kind == "decb":
+            bs = bytes(case[1])
+            if bs and all(chr(x) in B64 for x in bs):
+                v = 0
+                for x in bs:
+                    v = v * 64 + B64.index(chr(x))
+                if obs[0] != ("ok", v):
+                    bad.append("decode-bytes-value")
+            elif obs[0][0] != "raise":
+                bad.append("decode-bytes-foreign-accepted")
+        elif kind == "codeseq":
+            # the conversions are functions of their arguments: a call must not depend on earlier calls
+            for s_, o in zip(case[1], obs):
+                bad += self.oracle(("code", s_), o)
         elif kind == "nab":
             _, b, l = case
             n = -(-l * 3 // 4)
@@ -159,14 +220,22 @@ class C26(core.Check):
     def known(self, case, obs, clauses):
         if case == ("int", 0, 0) and obs == (("ok",), ("raise", "ValueError")):
             return "C26-K1"
+        if case[0] == "seq":     # a history is the known finding only if every violating step is exactly that finding
+            bad = [(c, o) for c, o in zip(case[1], obs) if self.oracle(c, o)]
+            if bad and all(self.known(c, o, None) == "C26-K1" for c, o in bad):
+                return "C26-K1"
         return None
 
     def nontrivial(self, case, obs):
         if case[0] == "int":
             return not (case[1] < 64 and case[2] <= 1)
+        if case[0] in ("codeseq", "seq"):
+            return len(case[1]) > 1
         return len(case[1]) > 0
 
     def features(self, case, obs):
+        if case[0] in ("codeseq", "seq"):
+            return [case[0], f"{case[0]}:len={len(case[1])}"]
         f = [case[0], f"{case[0]}:{obs[0][0]}" + (":" + obs[0][1] if obs[0][0] == "raise" else "")]
         if case[0] == "int":
             f.append("int:l=0" if case[2] == 0 else "int:l>0")
@@ -182,6 +251,19 @@ class C26(core.Check):
             for l2 in {0, 1, l // 2, l - 1} - {l}:
                 if l2 >= 0:
                     yield ("int", n, l2)
+        elif case[0] == "seq":
+            for i in range(len(case[1])):
+                yield ("seq", case[1][:i] + case[1][i + 1:])
+            if len(case[1]) == 1:
+                yield case[1][0]
+        elif case[0] == "decb":
+            for i in range(len(case[1])):
+                yield ("decb", case[1][:i] + case[1][i + 1:])
+        elif case[0] == "codeseq":
+            ss = case[1]
+            for i in range(len(ss)):
+                if len(ss) > 1:
+                    yield ("codeseq", ss[:i] + ss[i + 1:])
         elif case[0] in ("code", "dec"):
             s = case[1]
             for i in range(len(s)):
